@@ -266,7 +266,7 @@ def run(chk):
             "T-dump tie broken (%s): the real %s and the extracted model Model/EscGraph.v disagree on %d cases %s;\n"
             "the theorems of Properties/C15.v no longer cover this code.\nprogram %s case %s\n\ninput (case.txt):\n%s\nGo:\n%s\n\nmodel:\n%s\n\n"
             "re-run the model: build/bin/c15model < case.txt\n" % (why, op, len(tie_broken), dict(byop), p, cid, ctext, gtxt, mtxt))
-        if found_concrete:
+        if found_concrete and chk.has_new_concrete():
             chk.notes.append("tie broken on %d cases %s (concrete law/monotonicity violations reported above)" % (len(tie_broken), dict(byop)))
         else:
             # search for a concrete failing input among the disagreeing cases: does the Go result contradict the
